@@ -213,10 +213,10 @@ class _Seams(object):
             setattr(wx, name, val)
 
 
-def _recording(d, fam, ns, nsites=40):
+def _recording(d, fam, ns, nsites=40, mult=31):
     kind, sites, xy = _geom(fam, nsites)
     nc = nsites + 1
-    raw = ((np.arange(ns)[:, None] * 31 + np.arange(nc)[None, :] * 7919) % 65536 - 32768).astype(np.int16)
+    raw = ((np.arange(ns)[:, None] * mult + np.arange(nc)[None, :] * 7919) % 65536 - 32768).astype(np.int16)
     gains = [(synth.GAINS[(i * 3) % 8], 250) for i in range(nsites)]
     fbin = synth.write_recording(d, "wf_g0_t0.imec0.ap", raw, synth.meta_items(kind, sites, ns, gains=gains))
     s2v = synth.ref_s2v(kind, "ap", nsites, 1, gains=gains)
@@ -392,6 +392,22 @@ def file_check(case):
                     _loader_check(out, seen, ctx)
             elif sig != outcome:
                 seen.setdefault("file:task-order", "%s: traces/templates differ from the natural task order" % ctx)
+    # another recording written to the SAME path, extracted in the same process: nothing of the first one may survive
+    fbin2, cal2, xy2 = _recording(d, fam, ns, mult=17)
+    assert fbin2 == fbin
+    out = os.path.join(d, "out")
+    ctx = "%s ns=%d max_wf=%d second recording at the same path" % (fam, ns, max_wf)
+    try:
+        _run_extract(fbin, out, spikes, max_wf, 1000, None, seed=3)
+        ntr += 1
+        before = len(seen)
+        _verify_output(out, cal2, xy2, spikes, max_wf, ns, seen, ctx)
+        if len(seen) > before and "file:values" in seen and ctx in seen["file:values"]:
+            seen["file:stale-recording"] = seen.pop("file:values")
+    except HarnessError:
+        raise
+    except Exception as e:
+        seen.setdefault("file:exc:%s" % type(e).__name__, "%s: %s: %s" % (ctx, type(e).__name__, e))
     return Res(list(seen.items()), o=(fam, max_wf), tr=ntr)
 
 
